@@ -29,6 +29,7 @@ def shifted(S, n, kind, pos, k, surv):
 
 def run(ctx):
     ctx.check_props()
+    gen_fail = ctx.genlink_goarith("GoLinkC16")    # the Go arithmetic / constants are re-translated from the source and the GEN_* theorems re-checked
     model = ctx.build_model()
     vh = ctx.build_harness()
     rng = ctx.rng
@@ -157,6 +158,7 @@ def run(ctx):
             elif x != y:
                 report("Repair differs from the model (%s, edit %s)" % (ps.tag, c["edit"]), replay, nf=True)
     dist["repairs_at_exact_capacity"] = len(repairs)
+    ctx.report_genlink(gen_fail, "GoLinkC16")
     return ctx.finish(
         "proof",
         rule="for slice sizes 4, 8, 12 (and 64 sampled; thorough: 64 fully) x file lengths m*S+{0,1,S-1} x content {random, low-entropy, duplicate slices}: EVERY edit position 0..len x insertion and deletion lengths {1,2,S-1,S,S+1,2S+3}, plus the content under another file's name; Verify's counts compared with the proved scan; for random content additionally a content-blind oracle (slices not overlapping the edit must be usable); sampled Repairs with exactly as many blocks as unusable slices; non-trivial = some surviving slice sits at a shifted offset",
